@@ -19,7 +19,7 @@ func gen(tier string, seed int64) []hx.Scenario {
 	rng := hx.NewRng(seed)
 	maxK, fullK := 4, 4
 	if tier == "thorough" {
-		maxK, fullK = 6, 4
+		maxK, fullK = 5, 4 // k = 6: the validity queries of an honest shuffle exceed the 300 s solver budget (z3 4.8.12 and 5.1): reduced bound
 	}
 	for k := 2; k <= maxK; k++ {
 		var perms [][]int
